@@ -10,6 +10,8 @@ NAMES = ['a', 'b', 'c']
 LEAVES_LITERAL = [
     '1', '0', '0x1F', '0o17', '0b101', '10_000', '123456789012345678901234567890', '1.5', '1e10', '1e-07', '.5', '1e999',
     '2j', '1.5j', "'x'", '"it\'s"', "'a\"b'", "'both \\' and \"'", "'nl\\n2'", "'tab\\t\\\\'", "'é ü'", "'\\ud800'", "'\\x00\\x7f'",
+    # a backslash directly in front of a quote, in values that hold one kind of quote only
+    'b"\\\\\'"', 'b"a\\\\\'b"', '"\\\\\'"', "b'\\\\\"'", "'\\\\\"q'", 'b"\'\\\\"',
     "'\\x0012'", "'\\x007z'", "'a\\x00'", "'\\x009'", "'\\x01f0'", "'\\t1\\n2\\r3'", "b'\\x0012'", "b'\\x007'", "'\\x1b[0m'", "'\\\\x41'", "'\\N{BULLET}1'", "'\\u00e9\\u0301'",
     "''", "b'x'", 'b"it\'s"', 'b\'a"b\'', 'b\'both \\\' and "\'', '\'\'\'it\'s "q" \'\'\'', 'b"""q\'q"""',
 "b'\\xff\\n'", "b''", "u'k'", "r'\\d+'", "'''tri\nple'''", '...', 'None', 'True', 'False', 'NotImplemented',
